@@ -317,17 +317,17 @@ pub fn run() {
     let mut fam = BTreeMap::new();
     let mut all = Out::default();
     // (a) every accepted sentence of the sentence family
-    let sentences: Vec<String> = corpus::sentence_lines(!quick).iter().map(|l| corpus::wrap(l)).collect();
+    let sentences: Vec<String> = corpus::sentence_lines(true).iter().map(|l| corpus::wrap(l)).collect();
     run_family("a:instruction-shapes", &sentences, &mut fam, &mut all);
     // (b) layouts
     let sh_reduced = shapes(false);
     let sh_all = shapes(true);
-    let lay = layout_programs(if quick { 1 } else { 2 }, &sh_all);
+    let lay = layout_programs(2, &sh_all);
     run_family("b:layout-depth1or2-all-shapes", &lay, &mut fam, &mut all);
-    let lay2 = layout_programs(if quick { 2 } else { 3 }, &sh_reduced.iter().step_by(if quick { 4 } else { 1 }).cloned().collect::<Vec<_>>());
+    let lay2 = layout_programs(if quick { 2 } else { 3 }, &sh_reduced.iter().step_by(if quick { 2 } else { 1 }).cloned().collect::<Vec<_>>());
     run_family("b:layout-deeper-reduced-shapes", &lay2, &mut fam, &mut all);
     // (c) jumps
-    let jumps = jump_programs(!quick);
+    let jumps = jump_programs(true);
     run_family("c:relative-jumps", &jumps, &mut fam, &mut all);
     // label / .EQU definitions and references in every letter-case combination, through every referencing form
     let labels = corpus::label_programs();
@@ -353,7 +353,7 @@ pub fn run() {
     ctx.set("distinct_nontrivial", all.ok);
     ctx.set("rule", "every enumerated program accepted by the language and laid out within the 240-byte RAM is compiled through both paths (Asm built from the reference AST; text through AsmParser::parse) and the per-line byte groups, the image and both limits are compared with REF-ASM; programs = programs validated (each distinct text), disagreements_checked = path comparisons made");
     ctx.set("exhaustive", true);
-    ctx.set("bounds", format!("instruction shapes: {} (all registers) / {} (reduced); prefix alphabet of {} directives and instructions, sequences to depth {} for all shapes and {} for reduced shapes; relative jumps from {} addresses to all 256 targets; 8 x 7 limit settings in 3 orders", sh_all.len(), sh_reduced.len(), prefix_alphabet().len(), if quick { 1 } else { 2 }, if quick { 2 } else { 3 }, if quick { 10 } else { 237 }));
+    ctx.set("bounds", format!("instruction shapes: {} (all registers) / {} (reduced); prefix alphabet of {} directives and instructions, sequences to depth {} for all shapes and {} for (quick: every 2nd of the) reduced shapes; relative jumps from {} addresses to all 256 targets; 8 x 7 limit settings in 3 orders", sh_all.len(), sh_reduced.len(), prefix_alphabet().len(), 2, if quick { 2 } else { 3 }, 237));
     ctx.set("bytes_compared", all.bytes);
     ctx.set("label_operands_resolved", all.labels);
     let mut fj = Json::obj();
